@@ -726,7 +726,7 @@ def run(ctx):
         n = 300 if ctx.quick else 6000
         cases = [gen_case(rng, i) for i in range(n)] + [sink_case(rng, i) for i in range(n)] + [pipe_case(rng, i) for i in range(n)]
         cases += [switch_case(rng, i) for i in range(n // 3)]
-        cases += [genre_case(rng, i) for i in range(n // 5)]          # oracle-only (counted apart below)
+        cases += [genre_case(rng, i) for i in range(n // 6)]          # oracle-only (counted apart below)
     impl, text, dis, orc = {}, [], [], []
     hist = collections.Counter()
     owner = {}
@@ -764,8 +764,9 @@ def run(ctx):
             orc.append(x)
     # rings (oracle-only): the element's next hop hands packets straight back to its put() from inside its own put() - a loop in the topology without a
     # Store in between, a reflector, a closed-loop source - or re-labels them; all six schedulers and the Port; conservation clause only
-    ring_s = dynsched.run_family(ctx, 'C08', dynsched.KINDS, ['reflect', 'reflect', 'relabel'], ['conserve'], 72, 1440)
-    ring_p = dynport.run_family(ctx, 'C08', ['reflect'], ['conserve'], 30, 600)
+    # (and `out` re-pointed to another device while the element runs: "forwarded downstream" = to the device `out` names at the hand-over)
+    ring_s = dynsched.run_family(ctx, 'C08', dynsched.KINDS, ['reflect', 'reflect', 'relabel', 'out'], ['conserve'], 60, 1200)
+    ring_p = dynport.run_family(ctx, 'C08', ['reflect', 'reflect', 'out'], ['conserve'], 24, 480)
     orc += ring_s['oracle_failures'] + ring_p['oracle_failures']
     model = split_cases(run_driver('gensink', '\n'.join(text) + '\n'))
     for cid, a in impl.items():
